@@ -40,6 +40,9 @@ def handle : List String → String
 
 /-- `C18 rf …` lines: ReadFrom on a non-blocking queued channel with a stalled sender -/
 def handle18 : List String → String
+  | ["rf", q, chunks, n, err, queued, hang, dup] =>
+    if field dup "dup=" != "0" then "specviol after a refused streamed write the buffer pool hands out one buffer twice (it was put back twice)" else
+    handle18 ["rf", q, chunks, n, err, queued, hang]
   | ["rf", q, chunks, n, err, queued, hang] =>
     let cs := (chunks.splitOn ",").map unhex
     let free := (field q "q=").toNat?.getD 0
